@@ -413,7 +413,8 @@ Definition dhcp_call_step (hw : Z) (s : dhcp_socket) (c : dhcp_call) : outcome (
 (** * Interface glue (what stream `dhcp` drives): ingress filters, socket Meta, neighbor cache, routes *)
 
 Inductive dhif_frame :=
-| FrDhcp (eth_dst_ok ip_ok udp_ok : bool) (src_ip src_port dst_port : Z) (parsed : option dhcp_repr)
+| FrDhcp (eth_dst : Z) (ip_ok udp_ok : bool) (src_ip dst_ip src_port dst_port : Z) (parsed : option dhcp_repr)
+    (* eth_dst: 0 = broadcast, 1 = the interface's own address, anything else = another station *)
 | FrArp (spa tpa : Z).
 
 Record dhif := mkIf {
@@ -582,8 +583,10 @@ Fixpoint dhif_egress_loop (fuel : nat) (xid_of : Z -> Z) (ip_mtu now : Z) (i : d
 (* process_ethernet / process_ipv4 / process_arp for one received frame *)
 Definition dhif_ingress (hw now : Z) (i : dhif) (fr : dhif_frame) : outcome dhif :=
   match fr with
-  | FrDhcp eth_dst_ok ip_ok udp_ok src_ip src_port dst_port parsed =>
-      if negb eth_dst_ok then Ok i else
+  | FrDhcp eth_dst ip_ok udp_ok src_ip dst_ip src_port dst_port parsed =>
+      if negb ((eth_dst =? 0) || (eth_dst =? 1)) then Ok i else
+      (* RFC 1122 3.3.6: a link-layer broadcast must carry an IP broadcast/multicast destination *)
+      if (eth_dst =? 0) && negb (ip_is_multicast dst_ip) && negb (dhif_is_broadcast_v4 i dst_ip) then Ok i else
       if negb ip_ok then Ok i else
       (* non-unicast source addresses are discarded, the unspecified one is let through *)
       if negb (dhif_is_unicast_v4 i src_ip) && negb (ip_is_unspecified src_ip) then Ok i else
